@@ -4,7 +4,7 @@ import vlib
 from props._conc import san_summary, SAN_ENV
 
 LEVEL = "proof"
-HARNESSES = [("h_cache", "rel"), ("h_cache", "tsan")]
+HARNESSES = [("h_cache", "rel"), ("h_cache", "tsan"), ("h_cache", "asan")]
 ASSUMPTIONS = [
     "the vProgPoW kernel, ethash_make_cache/createDagCache, the epoch function and sha256twice are pure functions "
     "(Section variables hash, mk, ep, hk); sha256twice is collision-free on 65-byte headers (hk injective)",
@@ -32,7 +32,8 @@ META = {
             "thorough, ~100 s per epoch), not proved. A changed eviction policy is not a purity violation: policy "
             "disagreements with the model are reported in the evidence only. Finding on the unchanged tree: UBSan "
             "reports 'left shift of negative value' in keccak_f800 (progpow.cpp:176, signed int rotations) - UB before "
-            "C++20, benign with GCC; therefore C17 does not use the asan+ubsan variant.",
+            "C++20, benign with GCC; the asan variant is built with -fno-sanitize=shift-base for that reason and is "
+            "used by C17 in the thorough tier only (vProgPoW at -O0 under ASan is slow).",
     "technique": "Coq proof (invariant: every cache entry is in the graph of f; all interleavings) + extraction-based "
                  "differential run of the real templates + cache-free recomputation oracle on the real progPowHash",
 }
@@ -125,13 +126,13 @@ def run(ctx):
     if not okm:
         ctx.broken.append("model-build: " + mlog[-300:])
     bins = {}
-    for v in ("rel", "tsan"):
+    for v in (("rel", "tsan", "asan") if ctx.tier == "thorough" else ("rel", "tsan")):
         ok, hs, hlog = vlib.build_harness(["h_cache"], v)
         if ok:
             bins[v] = hs["h_cache"]
         else:
             ctx.broken.append("harness-build(%s): %s" % (v, hlog[-300:]))
-    if not okm or len(bins) < 2:
+    if not okm or len(bins) < (3 if ctx.tier == "thorough" else 2):
         return
     if ctx.replay and "cases" in ctx.replay:
         rc_cases = [tuple(c) if not isinstance(c, dict) else (c["id"], c["op"], c["args"]) for c in ctx.replay["cases"]]
@@ -142,6 +143,10 @@ def run(ctx):
         templ = gen_template_cases(ctx, ctx.tier)
         plan = [("rel", templ + gen_pow_cases(ctx, ctx.tier, "rel")),
                 ("tsan", templ[::7] + gen_pow_cases(ctx, ctx.tier, "tsan"))]
+        if ctx.tier == "thorough":
+            # ASan+UBSan (-O0): templates, hit path and one real single-epoch sequence (slow)
+            plan.append(("asan", templ[::11] + [("s1", "powhit", ["4", "77", "50"]),
+                                                 ("s2", "pow", ["2", "6", "100", "78"] + "h0.1 h0.2 h0.1 P0.3 h0.3 C h0.1 F0.4".split())]))
     total = 0
     policy_same = 0
     policy_diff = []
@@ -161,11 +166,25 @@ def run(ctx):
         if rc != 0 or san:
             missing = [c for c in cases if c[0] not in res]
             culprit = missing[0] if missing else None
-            kind, key, excerpt = san if san else ("crash", "crash:rc%d" % rc, err[-1500:])
-            if culprit is not None:
+            rc2, text = rc, err
+            if culprit is not None and not san:
+                # no sanitizer report: an abnormal exit / timeout counts only if it reproduces (loaded machine)
+                one = os.path.join(ctx.work, "confirm-%s.txt" % variant)
+                with open(one, "w") as f:
+                    f.write(line(culprit) + "\n")
+                rc2, _, orc2, text = vlib.run_lines([bins[variant]], one, timeout=3000, env=SAN_ENV)
+                san = san_summary(text)
+                if rc2 == 0 and not san:
+                    ctx.cov.setdefault("unreproduced_abnormal_exits", []).append({"variant": variant, "rc": rc, "case": line(culprit)[:200]})
+                    culprit = None
+                    rc2 = 0
+            if culprit is not None and not san and rc2 == 124:
+                ctx.broken.append("runner:%s reproducible timeout on %s" % (variant, line(culprit)[:200]))
+            elif culprit is not None:
+                kind, key, excerpt = san if san else ("crash", "crash:rc%d" % rc2, text[-1500:])
                 ctx.violation({"kind": "input", "cases": [list(culprit)], "variant": variant, "report": excerpt,
                                "what": "sanitizer report / abnormal exit while running this case (rc=%d)" % rc}, key=key)
-            else:
+            elif rc2 != 0:
                 ctx.broken.append("runner:%s rc=%d %s" % (variant, rc, err[-300:]))
         for i, t in orc:
             if i in byid:
